@@ -663,7 +663,7 @@ class SemFamily(Family):
     props = ('C20',)
 
     def cases(self, seed, tier, prop):
-        n = 500 if tier == 'quick' else 8000
+        n = 1500 if tier == 'quick' else 16000
         i = 0
         for j in range(n):
             rng = random.Random(f'c20/{seed}/{j}')
